@@ -77,6 +77,19 @@ fn tbl_wait(name: &str) {
     }
     let mut n = 0;
     while !tbl_has(name) && n < 100000 {
+        {
+            // nobody else is left who could create it: the op is skipped
+            let st = rt().lock();
+            let me = tid();
+            let others = st
+                .th
+                .iter()
+                .enumerate()
+                .any(|(t, th)| t != me && th.status != crate::rt::Status::Finished);
+            if !others {
+                return;
+            }
+        }
         rt().sched(K::Shim(multiqueue2::verif_hooks::OpKind::Yield), 0, 0);
         rt().done(K::Shim(multiqueue2::verif_hooks::OpKind::Yield), 0, 0, 0, true);
         n += 1;
@@ -156,7 +169,6 @@ fn call_point() {
 
 /// Runs one primitive API call with call/ret logging; a panic in the crate is a result
 fn prim<F: FnOnce() -> Res>(op: &str, api: &str, h: &str, hk: &str, v: i64, newh: &str, f: F) -> Res {
-    call_point();
     log_call(op, api, h, hk, v, newh);
     let r = catch_unwind(AssertUnwindSafe(f));
     match r {
@@ -190,18 +202,15 @@ fn exec_op(op: &Value, fut_default: bool) -> bool {
     let name = sget(op, "op");
     let hn = sget(op, "h");
     let newn = sget(op, "new");
-    let task = tid();
+    let task = op["task"].as_u64().map(|x| x as usize).unwrap_or_else(tid);
     let mut ok = true;
     set_retrying(false);
-    if name != "nop" {
-        tbl_wait(hn);
-    }
     match name {
         "send" | "start_send" | "fsend" => {
             let v = op["v"].as_u64().unwrap_or(0);
             let use_sink = name != "send" || (fut_default && op["sink"].as_bool().unwrap_or(false));
             loop {
-                let mut h = match tbl_take(hn) {
+                let mut h = match { call_point(); tbl_wait(hn); tbl_take(hn) } {
                     Some(h) => h,
                     None => return false,
                 };
@@ -234,15 +243,27 @@ fn exec_op(op: &Value, fut_default: bool) -> bool {
             }
         }
         "poll_complete" => {
-            if let Some(mut h) = tbl_take(hn) {
+            if let Some(mut h) = { call_point(); tbl_wait(hn); tbl_take(hn) } {
                 let hk = h.kind();
                 prim("pc", "poll_complete", hn, hk, -1, "", || in_task(task, || h.poll_complete()));
                 tbl_put(hn, h);
             }
         }
+        "wpoll" => {
+            // wait for the notification of this op's task, then poll once
+            set_waiting("recv", hn);
+            wait_task(task);
+            clear_waiting();
+            if let Some(mut h) = { call_point(); tbl_wait(hn); tbl_take(hn) } {
+                let hk = h.kind();
+                rt().clear_task(task);
+                prim("recv", "poll", hn, hk, -1, "", || in_task(task, || h.poll()));
+                tbl_put(hn, h);
+            }
+        }
         "recv" | "brecv" | "view" | "bview" | "poll" | "frecv" => {
             loop {
-                let mut h = match tbl_take(hn) {
+                let mut h = match { call_point(); tbl_wait(hn); tbl_take(hn) } {
                     Some(h) => h,
                     None => return false,
                 };
@@ -278,7 +299,7 @@ fn exec_op(op: &Value, fut_default: bool) -> bool {
         "brecv_all" | "bview_all" | "frecv_all" => {
             // receive (blocking) until the end of the stream
             loop {
-                let mut h = match tbl_take(hn) {
+                let mut h = match { call_point(); tbl_wait(hn); tbl_take(hn) } {
                     Some(h) => h,
                     None => return false,
                 };
@@ -307,7 +328,7 @@ fn exec_op(op: &Value, fut_default: bool) -> bool {
         "recv_all" | "view_all" | "poll_all" => {
             // non-blocking receive, repeated until the end of the stream is reported
             loop {
-                let mut h = match tbl_take(hn) {
+                let mut h = match { call_point(); tbl_wait(hn); tbl_take(hn) } {
                     Some(h) => h,
                     None => return false,
                 };
@@ -338,7 +359,7 @@ fn exec_op(op: &Value, fut_default: bool) -> bool {
             // receive until the first non-value result
             let api = sget(op, "api");
             loop {
-                let mut h = match tbl_take(hn) {
+                let mut h = match { call_point(); tbl_wait(hn); tbl_take(hn) } {
                     Some(h) => h,
                     None => return false,
                 };
@@ -366,7 +387,7 @@ fn exec_op(op: &Value, fut_default: bool) -> bool {
             let mut v = op["v"].as_u64().unwrap_or(1000);
             let lim = op["n"].as_u64().unwrap_or(64);
             for _ in 0..lim {
-                let h = match tbl_take(hn) {
+                let h = match { call_point(); tbl_wait(hn); tbl_take(hn) } {
                     Some(h) => h,
                     None => return false,
                 };
@@ -381,7 +402,7 @@ fn exec_op(op: &Value, fut_default: bool) -> bool {
         }
         "iter" => {
             // owning blocking iterator: consumes the handle, runs until the end of the stream
-            if let Some(h) = tbl_take(hn) {
+            if let Some(h) = { call_point(); tbl_wait(hn); tbl_take(hn) } {
                 let hk = h.kind();
                 let with_view = op["view"].as_bool().unwrap_or(false);
                 match h.into_blocking_iter(with_view) {
@@ -407,7 +428,7 @@ fn exec_op(op: &Value, fut_default: bool) -> bool {
             }
         }
         "add_stream" => {
-            if let Some(h) = tbl_take(hn) {
+            if let Some(h) = { call_point(); tbl_wait(hn); tbl_take(hn) } {
                 let hk = h.kind();
                 let mut newh = None;
                 prim("add_stream", "add_stream", hn, hk, -1, newn, || match h.add_stream() {
@@ -425,7 +446,7 @@ fn exec_op(op: &Value, fut_default: bool) -> bool {
             }
         }
         "clone" => {
-            if let Some(h) = tbl_take(hn) {
+            if let Some(h) = { call_point(); tbl_wait(hn); tbl_take(hn) } {
                 let hk = h.kind();
                 let mut newh = None;
                 prim("clone", "clone", hn, hk, -1, newn, || match h.dup() {
@@ -443,7 +464,7 @@ fn exec_op(op: &Value, fut_default: bool) -> bool {
             }
         }
         "drop" => {
-            if let Some(h) = tbl_take(hn) {
+            if let Some(h) = { call_point(); tbl_wait(hn); tbl_take(hn) } {
                 let hk = h.kind();
                 prim("drop", "drop", hn, hk, -1, "", || {
                     drop(h);
@@ -452,13 +473,13 @@ fn exec_op(op: &Value, fut_default: bool) -> bool {
             }
         }
         "unsub" => {
-            if let Some(h) = tbl_take(hn) {
+            if let Some(h) = { call_point(); tbl_wait(hn); tbl_take(hn) } {
                 let hk = h.kind();
                 prim("unsub", "unsubscribe", hn, hk, -1, "", || h.unsubscribe());
             }
         }
         "into_single" | "into_multi" | "transform" => {
-            if let Some(h) = tbl_take(hn) {
+            if let Some(h) = { call_point(); tbl_wait(hn); tbl_take(hn) } {
                 let hk = h.kind();
                 let mut back = None;
                 prim(name, name, hn, hk, -1, "", || {
